@@ -93,6 +93,18 @@ def bounded(ctx):
         if B.out_of_time() or B.failures:
             break
         one(es.Encryptor(), b"same firmware", "fresh")
+    # a hosting process that re-seeds the process-global PRNG identically before every encryption (a build driver doing random.seed(<fixed>)
+    # per image): an IV drawn from os.urandom is unaffected, one drawn from `random` repeats
+    import random
+    state = random.getstate()
+    try:
+        for i in range(12):
+            if B.failures:
+                break
+            random.seed(20240229)
+            one(long_lived if i % 2 else es.Encryptor(), bytes([i]) * 10, "prng-reseeded-identically")
+    finally:
+        random.setstate(state)
     for i in range(min(n // 20, 200)):
         if B.out_of_time() or B.failures:
             break
